@@ -28,10 +28,13 @@ pub async fn handle_did_open_text_document(
     let (uri, session) = state.uri_and_session_from_workspace(&params.text_document.uri)?;
     state.documents.handle_open_file(&uri).await;
 
-    send_new_compilation_request(state, session.clone(), &uri, None, false, sync_workspace);
+    // Mark the compilation as in progress *before* handing the request to the compilation thread. If the
+    // flag were set afterwards, a compilation that has already finished would leave it set forever and
+    // every later `wait_for_parsing` would hang.
     #[cfg(feature = "verif")]
     sway_core::verif_hooks::point("open.store_compiling_true");
     state.is_compiling.store(true, Ordering::SeqCst);
+    send_new_compilation_request(state, session.clone(), &uri, None, false, sync_workspace);
     state.wait_for_parsing().await;
     state
         .publish_diagnostics(uri, params.text_document.uri, session)
